@@ -95,8 +95,8 @@ def run_wrapper_property(prop, tier, seed, a, t0, extra_tasks=None, extra_eviden
     if prop == 'C05' and tier == 'quick':
         budget.update({'hard_s': 110, 'max_unknown': 1, 'fallback_s': 15})      # division: most 16/32-bit float-route queries are hopeless in the quick budget
     if prop == 'C05' and tier == 'thorough':
-        # measured: what the portfolio does not decide about a divider in a few minutes it does not decide in an hour; keep the run to about two hours
-        budget.update({'hard_s': 1200, 'max_unknown': 4, 'z3_ms': 60000, 'fallback_s': 240})
+        # measured: what the portfolio does not decide about a divider in a few minutes it does not decide in an hour; keep the run to about an hour and a half
+        budget.update({'hard_s': 500, 'max_unknown': 3, 'z3_ms': 30000, 'fallback_s': 120})
     ladder = configs.check_ladder(build.REPO)
     cfgs = cfgs or configs.for_tier(tier)
     if a.configs:
@@ -142,7 +142,16 @@ def run_wrapper_property(prop, tier, seed, a, t0, extra_tasks=None, extra_eviden
         if not ws:
             continue
         tc = time.time()
-        text, ok, dropped, cmd, llpath = build.compile_ir(cfg, ws, prop)
+        try:
+            text, ok, dropped, cmd, llpath = build.compile_ir(cfg, ws, prop)
+        except RuntimeError as e:
+            # the headers themselves do not compile in this configuration: nothing of this property can be explored there (C19 reports it)
+            first = [l for l in str(e).split('\n') if 'error:' in l][:1]
+            print('INCONCLUSIVE: configuration %s does not compile, %d wrappers not explored: %s' % (cfg.name, len(ws), (first or ['?'])[0][:200]), flush=True)
+            compile_info.append({'config': cfg.name, 'flags': cfg.flags(), 'wrappers': 0, 'dropped': len(ws), 'error': str(e)[-600:]})
+            for w in ws[:50]:
+                dropped_all.append({'config': cfg.name, 'wrapper': w['name'], 'error': 'configuration does not compile: ' + (first or ['?'])[0][:150]})
+            continue
         mod = llir.parse_module(text)
         compile_info.append({'config': cfg.name, 'flags': cfg.flags(), 'wrappers': len(ok), 'dropped': len(dropped), 'compile_s': round(time.time() - tc, 2)})
         for w, err in dropped:
